@@ -158,6 +158,14 @@ def build_variants(state, data):
         c.add_data_point_to_outliers(dmap[max(b)])
         t5.update()
         out["original-after-its-copy-was-edited"] = t5
+        # a data point taken out of a clone and put back (the Gibbs data-point move that returns to where it was), no update()
+        t6 = oracle.build(state, data)
+        nd6 = t6.node_data
+        name6 = {frozenset(d.idx for d in v): k for k, v in nd6.items() if k != t6.outlier_node_name}
+        for b in sorted(big, key=sorted):
+            t6.remove_data_point_from_node(dmap[max(b)], name6[b])
+            t6.add_data_point_to_node(dmap[max(b)], name6[b])
+        out["point-removed-and-put-back"] = t6
     return out
 
 
